@@ -27,7 +27,7 @@ type World struct {
 	InlineSmall   bool
 
 	FieldFact      func(e *FuncEnc, structT types.Type, field int, base, val string) string
-	MapValueFact   func(e *FuncEnc, mt *types.Map, val, has string) string
+	MapValueFact   func(e *FuncEnc, declared types.Type, val, has string) string // declared: the static type of the map expression
 	ElemFact       func(e *FuncEnc, elem types.Type, val string) string
 	InvokeSummary  func(e *FuncEnc, cc *ssa.CallCommon) bool
 	LoopSummary    func(e *FuncEnc, li *loopInfo) bool
